@@ -308,6 +308,25 @@ def check_clear_loop(cfg, w, rep, lf):
             body = e.body
             cf = prog.cfg(body)
             loops = [(h, bl) for h, bl in cf.loops() if e.blk in bl]
+            if not loops and body.def_kind == "Closure":
+                # `read_dir(cache)?.try_for_each(|entry| { ..; remove_dir_all(entry?.path()) })`: the adaptor hands every entry
+                # to the closure and stops only when the closure fails; inside the closure every return that is not a failure
+                # passes the removal
+                ad = w.inv.adaptor_of(body.path)
+                from ..symval import walk as _walk
+                if ad is not None and ad[0].rsplit("::", 1)[-1] in ("try_for_each", "for_each") and any(
+                        st_[0] == "call" and norm_callee(st_[1]) in ("std::path::Path::read_dir", "std::fs::read_dir") for st_ in _walk(ad[1])):
+                    rds_ = [rd for rd in ret_defs(prog, body) if rd.cls in ("success", "unknown", "delegated")]
+                    reach_ = cf.reachable(0, cut_nodes={e.blk})
+                    skipping = [rd for rd in rds_ if rd.blk in reach_ and rd.blk != e.blk]
+                    if skipping:
+                        rep.violation("clear-skips:%s" % key,
+                                      "`%s`: the closure run for each child of the cache can return without a failure and without removing the child (at %s): "
+                                      "clear would report success and leave entries behind" % (short(lf.path), blk_loc(body, skipping[0].blk)),
+                                      loc=e.loc(), config=cfg, rule="clear-all-children")
+                    else:
+                        rep.ob(cfg, "clear-all-children", fn_key(f), "`%s` hands every child of read_dir to a closure that removes it or fails" % short(f.path))
+                    continue
             if not loops:
                 rep.violation("clear-loop:%s" % key, "`%s` removes a single child instead of iterating over the directory" % short(lf.path),
                               loc=e.loc(), config=cfg, rule="clear-all-children")
